@@ -767,6 +767,16 @@ func plSkewScenarios(thorough bool) []*plScenario {
 		sc.HeavyBound = 1
 		out = append(out, sc)
 	}
+	// 2:1 again, two collections: the second one is started later (its handler joins a downstream channel whose clock has
+	// moved on) from a checkpoint that is older than what the channel has already emitted
+	{
+		c1 := mkColl(101, "c1", []string{"src-dml_0"}, []string{"tgt-dml_0"})
+		c2 := mkColl(102, "c2", []string{"src-dml_1"}, []string{"tgt-dml_0"})
+		c1.Shards[0].Script = []plPack{pkIns(1000), pkDel(1020)}
+		c2.Shards[0].Script = []plPack{pkIns(995), pkIns(997)} // (older than what c1 has put on the channel by then)
+		c2.SeekMs = 990
+		out = append(out, &plScenario{Name: "skew:2to1-late-join", SrcN: 2, TgtN: 1, Colls: []*plColl{c1, c2}, Drivers: []plDriver{{Kind: "start", Coll: 0}, {Kind: "start", Coll: 1}}, HeavyBound: 1})
+	}
 	// two source channels multiplexed onto one downstream channel (2:1), the handlers share the channel clock
 	{
 		c := mkColl(101, "c1", []string{"src-dml_0", "src-dml_1"}, []string{"tgt-dml_0", "tgt-dml_0"})
@@ -808,7 +818,7 @@ func TestVerifC03Time(t *testing.T) {
 		sc.HeavyBound = 1
 		scs = append(scs, sc)
 	}
-	res.Rule = "sched engine over the real channel manager + TS manager: two collections multiplexed on one source and one downstream channel with clock skew {0,+1ms,+1s,-0.5s} and data/tick-only mixes, tick-only stream racing a data stream, two source channels onto one downstream channel, streams started from seek positions, every single-stream script of <= 2 packs, the placement scenarios; scheduling points: delivery (free), the yield points after begin-ts collection / before the channel lock / between computing and enqueueing a pack, optional clock advance of one tick interval; all schedules within the deviation bound; oracle per downstream channel: packs end with a tick, closing ticks never decrease, every non-tick message is newer than every earlier closing tick and not newer than its own, data packs are self-consistent (pack begin/end, message, row and position timestamps), relative time order per source shard preserved; violating pairs where the later-enqueued pack was computed first are classified C03/overtake; non-trivial = executions with interleaving inside the handler"
+	res.Rule = "sched engine over the real channel manager + TS manager: two collections multiplexed on one source and one downstream channel with clock skew {0,+1ms,+1s,-0.5s} and data/tick-only mixes, tick-only stream racing a data stream, two source channels onto one downstream channel (one collection, and two collections of which the second joins late from an older checkpoint), streams started from seek positions, every single-stream script of <= 2 packs, the placement scenarios; scheduling points: delivery (free), the yield points after begin-ts collection / before the channel lock / between computing and enqueueing a pack, optional clock advance of one tick interval; all schedules within the deviation bound; oracle per downstream channel: packs end with a tick, closing ticks never decrease, every non-tick message is newer than every earlier closing tick and not newer than its own, data packs are self-consistent (pack begin/end, message, row and position timestamps), relative time order per source shard preserved; violating pairs where the later-enqueued pack was computed first are classified C03/overtake; non-trivial = executions with interleaving inside the handler"
 	plExplore(t, res, "C03", bound, scs, plCheck{props: "3"}, 150*time.Second)
 }
 
